@@ -1635,6 +1635,39 @@ async def _cancelled_family(tier: str):
                         hits.append(({"function": "tee_cancelled", "kind": kind, "src": list(src), "a": 0, "k": 0, "b": None, "n": n},
                                      f"tee iterator over {list(src)}: first __anext__ in an already cancelled scope ended with "
                                      f"'{out}' instead of raising the cancellation"))
+    # a call cancelled through an AnyIO scope must not lose an element: consumer B takes j elements, makes one call in an
+    # already cancelled scope, then goes on outside the scope - it must still see the whole source (A may or may not
+    # have filled the shared buffer before)
+    import anyio as _anyio
+
+    async def collect(it):
+        out = []
+        async for x in it:
+            out.append(x)
+        return out
+
+    for kind in (0, 1):
+        for src in lists(L + 1, (1, 2)):
+            for a_first in (False, True):
+                for j in range(len(src) + 1):
+                    ta, tb = ait.tee(mk_iter_obj((kind, src), n_cases), 2)
+                    n_cases += 1
+                    if a_first:
+                        await drain(ta, len(src) + 1)
+                    got = []
+                    for _ in range(j):
+                        got.append(await tb.__anext__())
+                    out = await _cancelled_first_next(tb)
+                    got += await collect(tb)
+                    if tuple(got) != tuple(src):
+                        hits.append(({"function": "tee_cancelled_call", "kind": kind, "src": list(src), "a_first": a_first, "j": j},
+                                     f"tee consumer over {list(src)}: after {j} elements one __anext__ was made in an already "
+                                     f"cancelled scope (it ended with '{out}'); going on afterwards the consumer saw {got} - "
+                                     f"{'an element was lost' if len(got) < len(src) else 'wrong sequence'} "
+                                     f"(other consumer had {'already' if a_first else 'not'} filled the buffer)"))
+                    if not a_first and tuple(await collect(ta)) != tuple(src):
+                        hits.append(({"function": "tee_cancelled_call", "kind": kind, "src": list(src), "a_first": a_first, "j": j},
+                                     f"tee over {list(src)}: the other consumer did not see the whole source after a cancelled call"))
     # every other iterator function on empty / one-element inputs
     fns = {
         "accumulate": lambda s: ait.accumulate(s), "batched": lambda s: ait.batched(s, 2),
@@ -2045,7 +2078,7 @@ def replay(path: str) -> int:
             REAL[0] = False
         print(json.dumps(r.describe()), "\nobservations:", r.outs, "\nmonitor:", r.mon or "silent")
         return 1 if r.mon else 0
-    if case.get("function") in ("tee_cancelled", "cancelled_first_next", "reduce_blackbox"):
+    if case.get("function") in ("tee_cancelled", "cancelled_first_next", "reduce_blackbox", "tee_cancelled_call"):
         hits, _ = run_cancelled_family("quick")
         same = [m for c0, m in hits if c0 == case] or [m for c0, m in hits][:3]
         print(json.dumps(case), "\nmonitor:", same or "silent")
